@@ -802,7 +802,7 @@ func c11ExecPipe(r *sim.Run, sc *c11PipeSc) {
 			started = gi
 			kindChange := kindOf(gi) != kindOf(gi-1) && sc.Gens[gi].FutName == sc.Gens[gi-1].FutName
 			if kindChange {
-				r.Probe("c11.pipe.inherit_changes_kind_of_named_filter/" + kindOf(gi-1) + "->" + kindOf(gi))
+				r.Probe("c11.pipe.inherit_changes_kind_of_named_filter/to-" + kindOf(gi))
 			}
 			r.Eventf("inherit g%d <- g%d starts (same fut spec: %v, kind %s -> %s)", gi, gi-1, sc.Gens[gi].V == sc.Gens[gi-1].V && sc.Gens[gi].FutName == sc.Gens[gi-1].FutName && kindOf(gi) == kindOf(gi-1), kindOf(gi-1), kindOf(gi))
 			n := &pipeline.Pipeline{}
